@@ -35,7 +35,9 @@ CONSTANTS
   ParamSet,       \* set of [cdx, log, digests, move : BOOLEAN, maxsize : Nat (0 = no rollover), compress, extra]
   Kinds,          \* subset of {"http", "rev", "ftp"}
   Shapes,         \* response header shapes
+  Bodies,         \* subset of {"data", "empty"}
   CanonShapes,    \* shapes whose re-serialisation is as long as the header block on the wire
+  LongerShapes,   \* shapes whose re-serialisation is longer than the header block on the wire
   BigShapes,      \* header block longer than 4 KiB
   EmptyShapes,    \* empty header block
   MaxSeq,         \* highest sequence number of a numbered file
@@ -98,19 +100,22 @@ InitWith(p, fx) ==
 Init == \E p \in ParamSet, fx \in FixSpace : InitWith(p, fx)
 
 -----------------------------------------------------------------------------
-S(op, a, b) == <<op, a, b>>
+S(op, a, b) == <<op, a, b, "">>
+S4(op, a, b, c) == <<op, a, b, c>>
 Step(name)  == pc = "idle" /\ todo # <<>> /\ Head(todo)[1] = name
 Ready       == pc = "idle" /\ todo = <<>>
 
 HdrClass(shape) == IF shape \in EmptyShapes THEN "empty" ELSE IF shape \in BigShapes THEN "over4k" ELSE "short"
 WireOffset(shape) == fix.offset \/ shape \in CanonShapes
 
-NewRec(ty, shape, l) ==
+\* body: "empty" | "data".  With an empty body an offset that is too LARGE still yields the digest of nothing.
+NewRec(ty, shape, body, l) ==
   [ty  |-> ty,
    rid |-> IF ty = "warcinfo" THEN winfo ELSE nextRid,
    wid |-> winfo,
    pdo |-> IF ~par.digests \/ ty \notin {"request", "response", "revisit"} THEN "none"
-           ELSE IF ty = "request" \/ WireOffset(shape) THEN "wire" ELSE "other",
+           ELSE IF ty = "request" \/ WireOffset(shape) THEN "wire"
+           ELSE IF body = "empty" /\ shape \in LongerShapes THEN "wire" ELSE "other",
    tr  |-> IF ty # "revisit" THEN "na" ELSE IF WireOffset(shape) THEN "wire" ELSE "other",
    hc  |-> HdrClass(shape), ok |-> TRUE, len |-> l]
 
@@ -176,12 +181,12 @@ Started ==
 (* sessions: HTTP (request record, response | revisit record), FTP (resource *)
 (* record at end_transfer, then the control conversation as metadata), then  *)
 (* BaseWARCRecorderSession.close -> flush_session                            *)
-Session(kind, shape) ==
+Session(kind, shape, body) ==
   /\ Ready /\ exch < MaxEx
   /\ exch' = exch + 1
-  /\ todo' = (CASE kind = "http" -> <<S("append", "request", shape), S("append", "response", shape)>>
+  /\ todo' = (CASE kind = "http" -> <<S("append", "request", shape), S4("append", "response", shape, body)>>
                 [] kind = "rev"  -> <<S("append", "request", shape),
-                                      S("append", IF par.digests THEN "revisit" ELSE "response", shape)>>
+                                      S4("append", IF par.digests THEN "revisit" ELSE "response", shape, body)>>
                 [] kind = "ftp"  -> <<S("append", "resource", "none"), S("append", "metadata", "none")>>)
              \o <<S("flush", "", ""), S("sessend", "", "")>>
   /\ UNCHANGED <<par, fix, fsvars, pc, recvars, rec, ap, nextRid, runs, faults, crashes, obsvars>>
@@ -228,7 +233,7 @@ Closed ==
 (* write_record: the append, one file-system operation per action           *)
 BeginAppend(l) ==
   /\ Step("append")
-  /\ rec' = NewRec(Head(todo)[2], Head(todo)[3], l)
+  /\ rec' = NewRec(Head(todo)[2], Head(todo)[3], Head(todo)[4], l)
   /\ nextRid' = IF Head(todo)[2] = "warcinfo" THEN nextRid ELSE nextRid + 1
   /\ ap' = [NoAp EXCEPT !.bef = disk[cur], !.btail = tail[cur]]
   /\ pc' = "a_exists"
@@ -353,7 +358,7 @@ SysNext ==
 
 EnvNext ==
   \/ (\E a \in BOOLEAN : Startup(a))
-  \/ (\E k \in Kinds, s \in Shapes : Session(k, s))
+  \/ (\E k \in Kinds, s \in Shapes, b \in Bodies : Session(k, s, b))
   \/ Close
   \/ ErrJOpen \/ ErrJWrite \/ ErrJClose \/ ErrAOpen \/ ErrAWrite \/ ErrAClose \/ ErrJRemove
   \/ Crash
